@@ -369,6 +369,16 @@ def check_context(case, ctx):
     ctx.check(c.fill_ratio == d.fill_ratio == want_ratio, 'fill_ratio', q, lambda: f'{c.fill_ratio} vs {d.fill_ratio} vs {want_ratio}')
     ctx.check(c.tostring() == d.tostring() == str(d), 'tostring', q, 'table strings differ')
     ctx.check(c.crc32() == d.crc32(), 'crc32', q, 'crc32 differs')
+    import zlib
+    text = c.tostring()
+    for enc in ('utf-8', 'utf-16', 'latin-1', 'cp1252'):
+        try:
+            want = format(zlib.crc32(text.encode(enc)) & 0xffffffff, 'x')
+        except UnicodeError:
+            continue
+        got = (ctx.call('Context.crc32(encoding)', q, c.crc32, enc), ctx.call('Definition.crc32(encoding)', q, lambda: d.crc32(encoding=enc)))
+        ctx.check(got == (want, want), 'crc32-encoding', q,
+                  lambda: f'crc32 with encoding {enc}: context {got[0]}, definition {got[1]}, CRC32 of the encoded table string {want}')
     # equality iff triples equal
     rnd = gen._random.Random(repr((case['r'], ctx.seed)))
     variants = []
@@ -393,6 +403,18 @@ def check_context(case, ctx):
     ctx.check(c == concepts.Context(list(o), list(p), [list(r) for r in bools]), 'context-eq/equal', q, 'equal triples, unequal contexts')
 
 
+@st.composite
+def context_cases(draw):
+    case = draw(gen.tables('small'))
+    if draw(st.booleans()):   # labels with non-ASCII letters (encodings matter for crc32)
+        n, m = len(case['o']), len(case['p'])
+        alphabet = st.sampled_from(list('abcxyzäöüéñßøå€λжш 0123'))
+        names = draw(st.lists(st.text(alphabet, min_size=1, max_size=5).map(lambda t: t.strip() or 'ä'),
+                              min_size=n + m, max_size=n + m, unique=True))
+        case['o'], case['p'] = names[:n], names[n:]
+    return case
+
+
 def plan(tier, seed):
     tasks = []
     total = len(dm.all_definitions(*SRC_UNIVERSE))
@@ -414,7 +436,7 @@ def run(task, ctx):
     elif task['kind'] == 'machine':
         ctx.guarded(machine_task, task, ctx)
     else:
-        ctx.hypothesis(lambda case: check_context(case, ctx), gen.tables('small'), task['examples'], task['seed'])
+        ctx.hypothesis(lambda case: check_context(case, ctx), context_cases(), task['examples'], task['seed'])
 
 
 def replay(case, ctx):
